@@ -69,9 +69,10 @@ class Session:
                 if before_read is not None:
                     before_read(sess, i)
                 self.i += 1
-                if i < len(lines):
+                if i < len(lines) and lines[i] != '':
                     sess.events.append(('read', i))
                     return lines[i]
+                # (an empty string without newline is not a line: it is how a text stream reports its end)
                 sess.events.append(('eof', i))
                 return ''
 
